@@ -202,6 +202,9 @@ func (e *c15cEnv) checkIndexed(cmd string, c c15cCase, res obiseq.BioSequenceSli
 			r.Violate(cmd+"/reference-changed"+sub, fmt.Sprintf("%+v: reference %s comes out as %s taxid %d", c, id, s.String(), s.Taxid()), c)
 			return false
 		}
+		if w := want(i); len(sq) > 0 && w[len(sq)-1] != w[0] {
+			r.Count("indexes_expected_multi_level_"+cmd, 1) // by the naive LCAs: a fact about the case
+		}
 		idx := s.OBITagRefIndex(slot)
 		if idx == nil {
 			r.Violate(cmd+"/reference-without-index"+sub, fmt.Sprintf("%+v: reference %s comes out without %s", c, id, slot), c)
@@ -228,6 +231,18 @@ func (e *c15cEnv) checkIndexed(cmd string, c c15cCase, res obiseq.BioSequenceSli
 		}
 	}
 	return true
+}
+
+// guardedEval runs the evaluation of one case. The commands themselves run under guards of their own; what is
+// left is the reading of what they delivered (records, attributes, files written by the tree under test, read
+// back with its readers): a panic or a log.Fatal there is a verdict on the tree, keyed by the part.
+func (e *c15cEnv) guardedEval(c c15cCase, f func(c15cCase)) {
+	defer func() {
+		if x := recover(); x != nil {
+			e.r.Violate(c.Part+"/crash-while-the-results-are-read", fmt.Sprintf("%+v: %v", c, x), c)
+		}
+	}()
+	f(c)
 }
 
 func (e *c15cEnv) evalRefidx(c c15cCase) {
@@ -461,6 +476,7 @@ func (e *c15cEnv) evalPipeline(c c15cCase) {
 	}
 	stream := ":stream-of-" + map[bool]string{true: "one-batch", false: "several-batches"}[len(c.Queries) <= 10]
 
+	r.Count("pipeline_save_db_runs", 1)
 	a, err := e.runTag(c.Cpu, refs, saved, qf)
 	if err != "" {
 		r.Violate("obitag/crash:references-without-index"+sub, fmt.Sprintf("%+v: %s", c, err), c)
@@ -493,6 +509,9 @@ func (e *c15cEnv) evalPipeline(c c15cCase) {
 		}
 		if got != 1 {
 			r.Count("pipeline_assigned_below_root", 1)
+		}
+		if len(bestTax) > 0 && e.tr.lca(bestTax) != 1 {
+			r.Count("pipeline_queries_with_best_lca_below_root", 1) // a fact about the case, not about the answer
 		}
 		for _, x := range bestTax {
 			if !e.tr.isAncOrSelf(got, x) {
@@ -580,13 +599,18 @@ func c15cFamily(q string) []string {
 
 func TestVerifC15C(t *testing.T) {
 	log.SetOutput(io.Discard)
-	log.StandardLogger().ExitFunc = func(code int) { panic(fmt.Sprintf("log.Fatal exit(%d)", code)) }
 	r := verifkit.New("C15")
 	defer r.Write()
+	c15installNet(r)
 
-	e := &c15cEnv{r: r, tr: c15mkTree("cmdline", c15cEdges), rank: map[int]string{}}
-	for _, x := range e.tr.nodes {
-		e.rank[x] = e.tr.node[x].Rank()
+	e := &c15cEnv{r: r, rank: map[int]string{}}
+	if !c15guardedSetup(r, "building the 12-node taxonomy of the command-level part and reading the ranks of its taxa", func() {
+		e.tr = c15mkTree("cmdline", c15cEdges)
+		for _, x := range e.tr.nodes {
+			e.rank[x] = e.tr.node[x].Rank()
+		}
+	}) {
+		return // every case of this part is placed on it
 	}
 	work := os.Getenv("VERIF_WORKDIR")
 	if work == "" {
@@ -614,13 +638,13 @@ func TestVerifC15C(t *testing.T) {
 		}
 		switch c.Part {
 		case "refidx":
-			e.evalRefidx(c)
+			e.guardedEval(c, e.evalRefidx)
 		case "slice":
-			e.evalSlice(c)
+			e.guardedEval(c, e.evalSlice)
 		case "family":
-			e.evalFamily(c)
+			e.guardedEval(c, e.evalFamily)
 		case "pipeline":
-			e.evalPipeline(c)
+			e.guardedEval(c, e.evalPipeline)
 		default:
 			t.Fatalf("unknown part %q", c.Part)
 		}
@@ -671,7 +695,7 @@ func TestVerifC15C(t *testing.T) {
 					for _, cpu := range cpus {
 						c := c15cCase{Part: "refidx", Refs: fam, Taxids: assign(n, a, u1, u2), Cpu: cpu}
 						r.State(fmt.Sprintf("refidx|%s|%v|%s", q, c.Taxids, cpu))
-						e.evalRefidx(c)
+						e.guardedEval(c, e.evalRefidx)
 					}
 				}
 				if r.Expired() {
@@ -696,7 +720,7 @@ func TestVerifC15C(t *testing.T) {
 						for _, cpu := range []string{"one", "4"} {
 							c := c15cCase{Part: "slice", Refs: fam, Taxids: assign(n, a), Cpu: cpu, Perm: perm}
 							r.State(fmt.Sprintf("slice|%s|%v|%d|%s", q, perm, a, cpu))
-							e.evalSlice(c)
+							e.guardedEval(c, e.evalSlice)
 						}
 					}
 				}
@@ -715,7 +739,7 @@ func TestVerifC15C(t *testing.T) {
 				k++
 				c := c15cCase{Part: "family", Refs: fam, Taxids: assign(n, a), Cpu: cpu}
 				r.State(fmt.Sprintf("family|%s|%d|%s", q, a, cpu))
-				e.evalFamily(c)
+				e.guardedEval(c, e.evalFamily)
 			}
 		}
 		// ---- pipeline: databases = the first 6 references + the two special ones, rotated; streams of
@@ -748,7 +772,7 @@ func TestVerifC15C(t *testing.T) {
 						cpu := cpus[(si+a/2+di)%3]
 						c := c15cCase{Part: "pipeline", Refs: seqs, Taxids: assign(len(seqs), a, unk), Cpu: cpu, Queries: st}
 						r.State(fmt.Sprintf("pipeline|%s|%d|%v|%d", q, di, c.Taxids, si))
-						e.evalPipeline(c)
+						e.guardedEval(c, e.evalPipeline)
 					}
 				}
 				if r.Expired() {
@@ -758,9 +782,11 @@ func TestVerifC15C(t *testing.T) {
 		}
 	}
 	r.RequireNonVacuous("refidx_databases_of_two_chunks")
-	r.RequireNonVacuous("indexes_multi_level_IndexReferenceDB")
-	r.RequireNonVacuous("indexes_multi_level_MakeIndexingSliceWorker")
+	// (indexes_multi_level_*, pipeline_assigned_below_root and pipeline_saved_indexes count what the commands answer:
+	// counters only; the guards are on the cases submitted)
+	r.RequireNonVacuous("indexes_expected_multi_level_IndexReferenceDB")
+	r.RequireNonVacuous("indexes_expected_multi_level_MakeIndexingSliceWorker")
+	r.RequireNonVacuous("pipeline_save_db_runs")
 	r.RequireNonVacuous("pipeline_runs_compared")
-	r.RequireNonVacuous("pipeline_assigned_below_root")
-	r.RequireNonVacuous("pipeline_saved_indexes")
+	r.RequireNonVacuous("pipeline_queries_with_best_lca_below_root")
 }
